@@ -657,6 +657,7 @@ def run(chk):
     chk.trusted.append("translator/gen_limits.py (constants / limits of the source -> Gen/Limits.lean: compiled probe + "
                        "preprocessed function bodies at named anchors; tied to the model numerals by Props/Limits/C10.lean)")
     problems = chk.prove(MODULES, AUDIT, want_leanchecker=(chk.tier == "thorough"))
+    problems = gen_limits.name_failures(chk, problems, "C10")   # name the tie theorems that fail
     exe, err = build()
     if exe is None:
         chk.violation("implementation does not build: " + (err or "")[-1500:], ["build-error"], nofail=True)
